@@ -1,7 +1,188 @@
-from ..model import AnalysisError
+"""C09 - blocking nodes never discard; non-blocking nodes never wait (partial).
+
+Paths of every pushing process (Source.behaviour, the three workers) are partitioned by the polarity of the
+`self.blocking` test.
+  R1 no discard on a blocking path;
+  R2 on a non-blocking path an item is only pushed (spawned _push_item) to an edge for which `can_put()` was
+     just true, with no suspension in between, and the process itself never reserves;
+  R3 a refusing probe is followed by exactly one discard count and no suspension on the way to it;
+  R4 the decision variable tested after the first-available scan is (re)initialised in the same iteration;
+  R5 can_put exists on every Edge subclass and reads only attributes that exist.
+"""
+from __future__ import annotations
+
+import ast
+
+from .. import nodewalk, paths, tables
+from ..model import AnalysisError, Project, self_attr, walk_no_nested
+from ..report import Result
+from .common import site, src
+
 PROP = 'C09'
 LEVEL = 'other'
 
 
-def run(p, tier):
-    raise AnalysisError('rule module for C09 not implemented yet (fail closed)')
+def blocking_polarity(pa):
+    for e in pa.events:
+        if e.kind == 'cond' and not e.d.get('synthetic') and e.text == 'self.blocking':
+            return e.polarity
+        if e.kind == 'cond' and not e.d.get('synthetic') and e.text == 'not self.blocking':
+            return not e.polarity
+    return None
+
+
+def run(p: Project, tier: str) -> Result:
+    r = Result(PROP)
+    r.explanation = ('Control-flow partition on the blocking flag: the blocking region contains no discard, the non-blocking region never '
+                     'reserves by itself and pushes only after a true can_put on the same edge; exactly one discard count per refusal. '
+                     'Who wins a same-instant race for the last slot is not decided.')
+    r.rule('C09.R1', 'no discard count on a blocking path', 4)
+    r.rule('C09.R2', 'non-blocking push only after a true can_put() of the same edge, no suspension in between, no own reservation', 6)
+    r.rule('C09.R3', 'a refused item is counted as discarded exactly once, without waiting', 6)
+    r.rule('C09.R4', 'the first-available decision variable is initialised in the same iteration', 4)
+    r.rule('C09.R5', 'can_put is implemented by every Edge subclass and reads only existing attributes', 4)
+    r.not_decided = ['same-instant race between can_put() and the reservation inside the spawned _push_item',
+                     'that can_put is exact (C11.R1 for Buffer/Fleet)']
+    pushers = []
+    for w in nodewalk.walks(p):
+        r.paths += w.npaths
+        for root, ps in w.roots.items():
+            fi = w.root_funcs[root]
+            if not any(e.kind == 'cond' and e.d.get('text') == 'self.blocking' for pa in ps for e in pa.events):
+                continue
+            r.analysed_functions.add(fi.key)
+            check_root(r, w, root, fi, ps)
+    check_can_put(p, r)
+    return r
+
+
+def check_root(r, w, root, fi, ps):
+    k1 = f'{fi.key}::blocking-never-discards'
+    bad1 = None
+    n_block = n_non = 0
+    push_sites = {}
+    refuse_sites = {}
+    init_sites = {}
+    own_reserve = None
+    for pa in ps:
+        if pa.raises or pa.status == 'loopcut':
+            continue
+        pol = blocking_polarity(pa)
+        if pol is None:
+            continue
+        evs = pa.events
+        if pol:
+            n_block += 1
+            d = [e for e in evs if e.kind == 'setitem' and 'num_item_discarded' in e.target]
+            if d:
+                bad1 = (pa, d[0])
+            continue
+        n_non += 1
+        can = {}            # edge value -> index of a true can_put probe still valid (no yield since)
+        for i, e in enumerate(evs):
+            if e.kind == 'yield':
+                can = {}
+            if e.kind == 'pcall' and e.name == 'can_put':
+                # the verdict is the polarity of the cond event that follows
+                nxt = next((x for x in evs[i + 1:i + 3] if x.kind == 'cond' and not x.d.get('synthetic')), None)
+                if nxt is not None and 'can_put' in nxt.text:
+                    if nxt.polarity:
+                        can[e.recv_val] = i
+                    else:
+                        key = site(e.fi, e.node, 'refusal')
+                        refuse_sites.setdefault(key, {'ok': True, 'e': e, 'pa': pa, 'why': ''})
+                        judge_refusal(evs, i, key, refuse_sites, pa)
+            if e.kind == 'first_available':
+                key4 = site(e.fi, e.node, f'decision-var:{e.var}', same=lambda n: isinstance(n, ast.For))
+                rec4 = init_sites.setdefault(key4, {'ok': True, 'e': e, 'pa': pa})
+                if e.prior != ('const', None) and rec4['ok']:
+                    rec4.update(ok=False, pa=pa)
+                if e.outcome == 'found':
+                    can[e.value] = i
+                else:
+                    key = site(e.fi, e.node, 'refusal', same=lambda n: isinstance(n, ast.For))
+                    refuse_sites.setdefault(key, {'ok': True, 'e': e, 'pa': pa, 'why': ''})
+                    judge_refusal(evs, i, key, refuse_sites, pa)
+            if e.kind == 'spawn' and e.func == 'self._push_item':
+                key = site(e.fi, e.node, 'nonblocking-push')
+                rec = push_sites.setdefault(key, {'ok': True, 'e': e, 'pa': pa, 'why': ''})
+                edge = e.args[1] if len(e.args) > 1 else None
+                if edge not in can and rec['ok']:
+                    rec.update(ok=False, pa=pa, why='item pushed on a non-blocking path without a true can_put() of that edge in the same atomic segment: '
+                                                     'the push can wait for space')
+            if e.kind == 'pcall' and e.name == 'reserve_put' and e.fi.name == root:
+                own_reserve = (e, pa)
+    if n_block:
+        if bad1:
+            pa, e = bad1
+            r.fail('C09.R1', k1, f'a blocking node counts a discard (line {e.line}): blocking nodes must wait, never drop', src(fi.module), e.line, pa.describe())
+        else:
+            r.ok('C09.R1', k1, f'no discard on {n_block} blocking path(s)', src(fi.module), fi.node.lineno)
+    if n_non:
+        k2 = f'{fi.key}::nonblocking-never-reserves'
+        if own_reserve:
+            e, pa = own_reserve
+            r.fail('C09.R2', k2, 'a non-blocking path reserves space itself and waits for the grant', src(fi.module), e.line, pa.describe())
+        else:
+            r.ok('C09.R2', k2, f'no own reservation on {n_non} non-blocking path(s)', src(fi.module), fi.node.lineno)
+    for key, rec in sorted(push_sites.items()):
+        e = rec['e']
+        (r.ok if rec['ok'] else r.fail)('C09.R2', key, 'dominated by a true can_put() of the same edge' if rec['ok'] else rec['why'],
+                                        src(e.fi.module), e.line, *([] if rec['ok'] else [rec['pa'].describe()]))
+    for key, rec in sorted(refuse_sites.items()):
+        e = rec['e']
+        (r.ok if rec['ok'] else r.fail)('C09.R3', key, 'one discard count, no wait' if rec['ok'] else rec['why'],
+                                        src(e.fi.module), e.line, *([] if rec['ok'] else [rec['pa'].describe()]))
+    for key, rec in sorted(init_sites.items()):
+        e = rec['e']
+        if rec['ok']:
+            r.ok('C09.R4', key, f'`{e.var} = None` precedes the scan in the same iteration', src(e.fi.module), e.line)
+        else:
+            r.fail('C09.R4', key, f'`{e.var}` is not reset to None before the first-available scan of this iteration: after one successful push the '
+                                  f'stale edge is used for ever (never discards, waits instead), or the name is unbound for the first item',
+                   src(e.fi.module), e.line, rec['pa'].describe())
+
+
+def judge_refusal(evs, i, key, sites, pa):
+    """after a refusing probe at index i: exactly one discard count before the next probe / item, no yield before it."""
+    rec = sites[key]
+    n = 0
+    waited = None
+    for e in evs[i + 1:]:
+        if e.kind in ('first_available',) or (e.kind == 'pcall' and e.name in ('can_put',)):
+            break
+        if e.kind == 'loophead' or e.kind == 'backedge':
+            break
+        if e.kind == 'setitem' and 'num_item_discarded' in e.target:
+            n += 1
+        if e.kind == 'yield' and n == 0:
+            waited = e
+        if e.kind == 'spawn' and e.func == 'self._push_item':
+            waited = e
+    if rec['ok']:
+        if waited is not None:
+            rec.update(ok=False, pa=pa, why=f'after can_put() refused, the process suspends / pushes (`{waited.d.get("text", waited.kind)}` at line {waited.line}) before counting the discard')
+        elif n != 1:
+            rec.update(ok=False, pa=pa, why=f'a refused item is counted as discarded {n} time(s) (expected exactly once)')
+
+
+def check_can_put(p: Project, r: Result):
+    base = tables.find_base(p, 'Edge', 'edges/edge.py')
+    for ci in tables.edge_classes(p):
+        fi = ci.methods.get('can_put')
+        key = f'{ci.label}.can_put::implemented'
+        if fi is None:
+            r.fail('C09.R5', key, 'can_put is not overridden: Edge.can_put raises NotImplementedError', src(ci.module), ci.node.lineno)
+            continue
+        r.analysed_functions.add(fi.key)
+        missing = []
+        for n in walk_no_nested(fi.node):
+            a = self_attr(n)
+            if a is not None and isinstance(n.ctx, ast.Load) and not p.has_member(ci.key, a):
+                missing.append((a, n.lineno))
+        if missing:
+            a, line = missing[0]
+            r.fail('C09.R5', key, f'can_put reads `self.{a}`, which is never assigned in {ci.name} or its bases: every non-blocking node in front of '
+                                  f'this edge dies with AttributeError', src(fi.module), line)
+        else:
+            r.ok('C09.R5', key, 'all attributes it reads exist', src(fi.module), fi.node.lineno)
